@@ -6,10 +6,17 @@
      vmraw   meminfo=hex zoneinfo=hex|null pagesize=n          → model only (malformed text)
      swap    entries=… sysinfo=[total,free,unit] vmstat=null|[[namehex,val]…]
      swapraw meminfo=hex sysinfo=[…] vmstat=hex|null           → model only
+     sysinfo = the seven members of `struct sysinfo` in the kernel's order
+               [totalram, freeram, bufferram, sharedram, totalswap, freeswap, mem_unit]; the driver
+               lays them out as arch/linux/mem.c does and unpacks them as swap_memory() does
+     phymem  entries1, entries2 (+ zones/pagesize), st0=null|n  → `_TOTAL_PHYMEM` after
+             virtual_memory() on world 1, and the total memory_percent() then uses on world 2
+     raw ops also answer `fail`: the characterisation proved in Props (vmFail / meminfoFail)
 -/
 import PsutilModel.Base.Proto
 import PsutilModel.Model.C08Gen
 import PsutilModel.Spec.C08
+import PsutilModel.Proofs.C08Text
 open Lean Psutil Psutil.Proto Psutil.C08
 
 def jStrList (l : List String) : Json := jList Json.str l
@@ -18,6 +25,11 @@ def jErr : Err → Json
   | .indexError => jObj [("kind", "exc"), ("exc", "IndexError")]
   | .valueError => jObj [("kind", "exc"), ("exc", "ValueError")]
   | .keyError _ => jObj [("kind", "exc"), ("exc", "KeyError")]
+  | .negLiteral => jObj [("kind", "declined"), ("why", "int() returned a negative number")]
+
+def jFail : Option Err → Json
+  | none => Json.null
+  | some e => jErr e
 
 /-- record as the constructor call lays it out: positional field name ↦ the variable passed -/
 def jLayout (layout : List (String × String)) (var : String → Option Int) (digits : Nat) : Json :=
@@ -72,10 +84,22 @@ def asVLine (j : Json) : R Spec.VLine :=
   | .ok #[n, v] => do pure ⟨← asBytes n, ← asNat v⟩
   | _ => .error "vmstat line must be [namehex, val]"
 
-def asSysinfo (j : Json) : R Sysinfo :=
+def asSysinfoC (j : Json) : R SysinfoC :=
   match j.getArr? with
-  | .ok #[t, f, u] => do pure ⟨← asNat t, ← asNat f, ← asNat u⟩
-  | _ => .error "sysinfo must be [total, free, unit]"
+  | .ok #[a, b, c, d, e, f, g] => do
+    pure ⟨← asNat a, ← asNat b, ← asNat c, ← asNat d, ← asNat e, ← asNat f, ← asNat g⟩
+  | _ => .error "sysinfo must be the 7 members of struct sysinfo"
+
+/-- C side (Py_BuildValue order) then Python side (tuple unpacking) -/
+def asSysinfo (j : Json) : R (SysinfoC × Sysinfo) := do
+  let s ← asSysinfoC j
+  match sysView cfg (s.tuple cfg.sysCOrder) with
+  | some v => pure (s, v)
+  | none => .error "the native tuple does not have the arity swap_memory() unpacks"
+
+def jOptInt : Option Int → Json
+  | none => Json.null
+  | some i => jInt i
 
 def handle (_ : Unit) (j : Json) : R (Unit × Json) := do
   let op ← strF j "op"
@@ -93,23 +117,38 @@ def handle (_ : Unit) (j : Json) : R (Unit × Json) := do
     let meminfo ← bytesF j "meminfo"
     let zoneinfo ← optF asBytes j "zoneinfo"
     let ps ← natF j "pagesize"
-    return ((), jObj [("model", jVmModel (virtualMemory cfg ps meminfo zoneinfo)), ("spec", Json.null)])
+    return ((), jObj [("model", jVmModel (virtualMemory cfg ps meminfo zoneinfo)), ("spec", Json.null),
+                      ("fail", jFail (vmFail meminfo zoneinfo))])
   else if op == "swap" then
     let es ← listF asEntry j "entries"
-    let sys ← field j "sysinfo" >>= asSysinfo
+    let (sc, sys) ← field j "sysinfo" >>= asSysinfo
     let vs ← optF (asList asVLine) j "vmstat"
     let meminfo := Spec.renderMeminfo es
     let vmstat := vs.map Spec.renderVmstat
     let model := swapMemory cfg meminfo sys vmstat
-    let spec := Spec.swap (Spec.MemInfo.ofEntries es) (sys.total * sys.unit) (sys.free * sys.unit)
-      (vs.map Spec.vmstatGet)
+    let spec := Spec.swap (Spec.MemInfo.ofEntries es) (sc.totalswap * sc.mem_unit)
+      (sc.freeswap * sc.mem_unit) (vs.map Spec.vmstatGet)
     return ((), jObj [("meminfo", jBytes meminfo), ("vmstat", jOpt jBytes vmstat),
                       ("model", jSwapModel model), ("spec", jSwapSpec spec)])
   else if op == "swapraw" then
     let meminfo ← bytesF j "meminfo"
-    let sys ← field j "sysinfo" >>= asSysinfo
+    let (_, sys) ← field j "sysinfo" >>= asSysinfo
     let vmstat ← optF asBytes j "vmstat"
-    return ((), jObj [("model", jSwapModel (swapMemory cfg meminfo sys vmstat)), ("spec", Json.null)])
+    return ((), jObj [("model", jSwapModel (swapMemory cfg meminfo sys vmstat)), ("spec", Json.null),
+                      ("fail", jFail (meminfoFail meminfo))])
+  else if op == "phymem" then
+    let es1 ← listF asEntry j "entries1"
+    let es2 ← listF asEntry j "entries2"
+    let st0 ← optF asNat j "st0"
+    let r1 := virtualMemory cfg 4096 (Spec.renderMeminfo es1) none
+    let r2 := virtualMemory cfg 4096 (Spec.renderMeminfo es2) none
+    let (st1, _) := frontVm cfg (st0.map Int.ofNat) r1
+    let (st2, used) := memPercentTotal cfg st1 r2
+    return ((), jObj [("meminfo1", jBytes (Spec.renderMeminfo es1)), ("meminfo2", jBytes (Spec.renderMeminfo es2)),
+                      ("run1", jVmModel r1), ("primed", jOptInt st1), ("used_total", jOptInt used),
+                      ("after", jOptInt st2),
+                      ("spec_total1", match (Spec.MemInfo.ofEntries es1).bytes "MemTotal" with
+                                      | some t => jNat t | none => Json.null)])
   else .error s!"unknown op {op}"
 
 def main : IO Unit := Proto.run () (total handle)
